@@ -114,6 +114,46 @@ fn scalars() -> Vec<ScalarValue> {
     out
 }
 
+
+/// nested scalars with several dictionary-encoded children (dictionary ids must survive the IPC round trip)
+fn dict_scalars() -> Vec<ScalarValue> {
+    use arrow::array::{Array, ArrayRef, DictionaryArray, FixedSizeListArray, Int32Array, Int64Array, MapArray, StringArray, StructArray};
+    use arrow::buffer::OffsetBuffer;
+    use arrow::datatypes::{Int8Type, Int32Type, UInt16Type};
+    use datafusion::common::utils::SingleRowListArrayBuilder;
+    let d32 = |v: Vec<&str>| -> ArrayRef { Arc::new(v.into_iter().collect::<DictionaryArray<Int32Type>>()) };
+    let d8 = |v: Vec<&str>| -> ArrayRef { Arc::new(v.into_iter().collect::<DictionaryArray<Int8Type>>()) };
+    let d16i = |v: Vec<i64>| -> ArrayRef {
+        let keys = arrow::array::UInt16Array::from((0..v.len() as u16).collect::<Vec<_>>());
+        Arc::new(DictionaryArray::<UInt16Type>::try_new(keys, Arc::new(Int64Array::from(v))).unwrap())
+    };
+    let f = |n: &str, a: &ArrayRef| Arc::new(Field::new(n, a.data_type().clone(), true));
+    let st = |cols: Vec<(&str, ArrayRef)>| -> StructArray { StructArray::from(cols.iter().map(|(n, a)| (f(n, a), a.clone())).collect::<Vec<_>>()) };
+    let mut out = Vec::new();
+    // struct with 2 and 3 dictionary fields (different key / value types), and a mix with plain fields
+    out.push(ScalarValue::Struct(Arc::new(st(vec![("country", d32(vec!["nl"])), ("city", d32(vec!["ams"]))]))));
+    out.push(ScalarValue::Struct(Arc::new(st(vec![("a", d8(vec!["x"])), ("b", d16i(vec![7])), ("c", d32(vec!["z"]))]))));
+    out.push(ScalarValue::Struct(Arc::new(st(vec![("plain", Arc::new(Int32Array::from(vec![1])) as ArrayRef), ("d1", d32(vec!["p"])), ("s", Arc::new(StringArray::from(vec!["q"])) as ArrayRef), ("d2", d8(vec!["r"]))]))));
+    // list of struct<dict, dict>
+    let two = st(vec![("country", d32(vec!["nl", "be"])), ("city", d32(vec!["ams", "bru"]))]);
+    out.push(SingleRowListArrayBuilder::new(Arc::new(two.clone())).build_list_scalar());
+    out.push(SingleRowListArrayBuilder::new(Arc::new(two.clone())).build_large_list_scalar());
+    // fixed size list of dictionary values, and of struct<dict, dict>
+    out.push(SingleRowListArrayBuilder::new(d32(vec!["u", "v"])).build_fixed_size_list_scalar(2));
+    out.push(SingleRowListArrayBuilder::new(Arc::new(two)).build_fixed_size_list_scalar(2));
+    let _ = FixedSizeListArray::new_null;
+    // map with dictionary keys' values: map<utf8, dictionary> and map<utf8, struct<dict, dict>>
+    for vals in [d32(vec!["m1", "m2"]), Arc::new(st(vec![("x", d32(vec!["a", "b"])), ("y", d8(vec!["c", "d"]))])) as ArrayRef] {
+        let keys: ArrayRef = Arc::new(StringArray::from(vec!["k1", "k2"]));
+        let entries = StructArray::from(vec![(Arc::new(Field::new("key", DataType::Utf8, false)), keys), (Arc::new(Field::new("value", vals.data_type().clone(), true)), vals)]);
+        let field = Arc::new(Field::new("entries", entries.data_type().clone(), false));
+        if let Ok(m) = MapArray::try_new(field, OffsetBuffer::new(vec![0i32, 2].into()), entries, None, false) {
+            out.push(ScalarValue::Map(Arc::new(m)));
+        }
+    }
+    out
+}
+
 fn half_from_f32(x: f32) -> half::f16 {
     half::f16::from_f32(x)
 }
@@ -257,6 +297,10 @@ fn exprs() -> Vec<Expr> {
     v
 }
 
+pub fn dict_literals() -> Vec<ScalarValue> {
+    dict_scalars()
+}
+
 pub fn main() {
     let ctx = SessionContext::new();
     let codec = DefaultLogicalExtensionCodec {};
@@ -264,6 +308,10 @@ pub fn main() {
     let (mut n, mut enc_err, mut bad) = (0, 0, 0);
     let mut all: Vec<(String, Expr)> = scalars().into_iter().map(|s| ("scalar".to_string(), Expr::Literal(s, None))).collect();
     all.extend(exprs().into_iter().map(|e| ("expr".to_string(), e)));
+    for sv in dict_scalars() {
+        all.push(("scalar".to_string(), Expr::Literal(sv.clone(), None)));
+        all.push(("expr".to_string(), col("a").eq(Expr::Literal(sv, None))));
+    }
     for (kind, e) in all {
         n += 1;
         let p = match serialize_expr(&e, &codec) {
